@@ -1,8 +1,10 @@
-(* C15 — the annotation grammar is exactly the documented one. (first version: obligations on the extracted
-   expressions; the recogniser theorems follow) *)
-From Coq Require Import List String Bool.
-From GG Require Import Base.Strs Model.RegexSyntax Model.Regex Extracted Exec.
+(* C15 — the annotation grammar is exactly the documented one. Statements only.
+   The expressions are regenerated from the source on every run (Go's own regexp/syntax parses the literals); the
+   theorems are about the backtracking matcher of Model/Regex.v (library model of package regexp) on those trees. *)
+From Coq Require Import List Ascii String Bool NArith.
+From GG Require Import Base.Strs Model.RegexSyntax Model.Regex Model.Annot Extracted Exec Proofs.RegexProofs.
 Import ListNotations.
+Local Open Scope string_scope.
 
 (* the seven expressions are within ASCII classes (byte-wise = rune-wise matching) and nothing was left untranslated *)
 Theorem C15_regexes_supported :
@@ -10,4 +12,55 @@ Theorem C15_regexes_supported :
   /\ unsupported = [].
 Proof. split; vm_compute; reflexivity. Qed.
 
+(* ---- the flag annotations ---- *)
+Definition kw (s : string) : list ascii := list_ascii_of_string s.
+
+(* obligation: the three expressions of the source are the flag shape  ^ blanks // blanks @keyword (blanks free-text)? $ *)
+Theorem C15_flag_expressions :
+  re_immutable = flag_re (kw "@immutable") /\ re_testonly = flag_re (kw "@testonly") /\ re_mutable = flag_re (kw "@mutable").
+Proof. repeat split; vm_compute; reflexivity. Qed.
+
+(* for EVERY comment text (any bytes, line breaks included): the parser accepts exactly the documented lines *)
+Theorem C15_immutable_exact : forall text, x_parse_immutable text = spec_flag (kw "@immutable") (list_ascii_of_string text).
+Proof.
+  intros text. unfold x_parse_immutable, parse_immutable, parse_flag. destruct C15_flag_expressions as [-> _].
+  unfold kw. cbn [list_ascii_of_string]. rewrite re_find_flag by (vm_compute; reflexivity).
+  destruct (spec_flag _ _); reflexivity.
+Qed.
+Theorem C15_testonly_exact : forall text, x_parse_testonly text = spec_flag (kw "@testonly") (list_ascii_of_string text).
+Proof.
+  intros text. unfold x_parse_testonly, parse_testonly, parse_flag. destruct C15_flag_expressions as [_ [-> _]].
+  unfold kw. cbn [list_ascii_of_string]. rewrite re_find_flag by (vm_compute; reflexivity).
+  destruct (spec_flag _ _); reflexivity.
+Qed.
+Theorem C15_mutable_exact : forall text, x_parse_mutable text = spec_flag (kw "@mutable") (list_ascii_of_string text).
+Proof.
+  intros text. unfold x_parse_mutable, parse_mutable, parse_flag. destruct C15_flag_expressions as [_ [_ ->]].
+  unfold kw. cbn [list_ascii_of_string]. rewrite re_find_flag by (vm_compute; reflexivity).
+  destruct (spec_flag _ _); reflexivity.
+Qed.
+
+(* ... where "documented" means: blanks, //, blanks, the keyword, then nothing, or at least one blank followed by text without a
+   line break.  In particular the keyword must be followed by a blank or the end (@immutablex is not @immutable), nothing but
+   blanks may precede the slashes or stand between them and the keyword, and the case is significant. *)
+Theorem C15_flag_line_shape :
+  forall a k s, is_ws a = false ->
+    (spec_flag (a :: k) s = true <->
+     exists w1 w2 rest, s = (w1 ++ slashes ++ w2 ++ (a :: k) ++ rest)%list /\ forallb is_ws w1 = true /\ forallb is_ws w2 = true /\ tail_ok WS rest = true).
+Proof. exact spec_flag_spec. Qed.
+Theorem C15_free_text_shape :
+  forall s, tail_ok WS s = true <-> s = [] \/ exists w t, s = (w ++ t)%list /\ w <> [] /\ forallb is_ws w = true /\ forallb nonl t = true.
+Proof. exact tail_ok_spec. Qed.
+
+Example C15_nonvacuous :
+  map x_parse_immutable ["// @immutable"; "  //@immutable  because"; "// @immutablex"; "// @Immutable"; "// see @immutable"; "/* @immutable */"; "// @immutable;"]
+  = [true; true; false; false; false; false; false].
+Proof. vm_compute. reflexivity. Qed.
+
 Print Assumptions C15_regexes_supported.
+Print Assumptions C15_flag_expressions.
+Print Assumptions C15_immutable_exact.
+Print Assumptions C15_testonly_exact.
+Print Assumptions C15_mutable_exact.
+Print Assumptions C15_flag_line_shape.
+Print Assumptions C15_free_text_shape.
